@@ -24,6 +24,22 @@ def main():
         led[pid] = sorted(o.id for o in obs)
         print(pid, len(led[pid]))
     (VERIF / 'ocv' / 'ledger.json').write_text(json.dumps(led, indent=0) + '\n')
+    loops()
+
+
+def loops():
+    """Baseline loop fingerprints per function (ocv/loops.json): loop specifications are keyed by baseline ordinal."""
+    from .cxx.ast import load_program
+    from .cxx.symex import Engine
+    prog = load_program()
+    eng = Engine(prog, {})
+    out = {}
+    for q, fn in sorted(prog.functions.items()):
+        fps = [eng.loop_fingerprint(d) for d in eng.loop_nodes(fn)]
+        if fps:
+            out[q] = fps
+    (VERIF / 'ocv' / 'loops.json').write_text(json.dumps(out, indent=0) + '\n')
+    print('loops.json', len(out), 'functions with loops')
 
 
 if __name__ == '__main__':
